@@ -75,4 +75,117 @@ theorem ps_drain (s : PSState) (x1 x2 x3 : PSIn) (h1 : x1.tO = true ∧ (x1.ti &
   rw [ps_shift s x1 h1, ps_shift _ x2 h2, ps_shift _ x3 h3]
   simp [psFlight]
 
+/-! ### Exact minimum pulse spacing as a function of the clock ratio -/
+
+/-- With at most `R` i-edges between two o-edges, pulses separated by `R + 1` pulse-free i-edges are `PSpaced`:
+    an o-clock edge falls strictly between any two of them. -/
+theorem pspaced_of_gap (R : Nat) (xs : List PSIn) : ∀ (q c : Nat) (pend : Bool), q ≤ R → (pend = true → c ≤ q) →
+    PBurst R q xs → PGap (R + 1) c xs → PSpaced pend xs := by
+  induction xs with
+  | nil => intros; trivial
+  | cons x xs ih =>
+    intro q c pend hq hj hb hg
+    obtain ⟨ti, tO, m, i⟩ := x
+    simp only [PBurst, PGap] at hb hg
+    refine ⟨?_, ?_⟩
+    · intro hx
+      simp only at hx
+      rw [if_pos hx] at hg
+      cases pend
+      · rfl
+      · have := hj rfl; omega
+    · cases hp : (ti && i)
+      · rw [hp] at hg
+        simp only [Bool.false_eq_true, if_false] at hg
+        cases tO
+        · cases ti
+          · simp only [Bool.false_eq_true, if_false] at hb hg
+            exact ih q c _ hq (by simpa [pendNext, hp] using hj) hb hg
+          · simp only [Bool.false_eq_true, if_false, if_true] at hb hg
+            exact ih (q + 1) (c + 1) _ (by omega) (by simp [pendNext, hp]; intro h; have := hj h; omega) hb.2 hg
+        · simp only [if_true] at hb
+          exact ih 0 _ _ (by omega) (by simp [pendNext, hp]) hb hg
+      · rw [hp] at hg
+        simp only [if_true] at hg
+        cases tO
+        · have hti : ti = true := by cases ti <;> simp_all
+          subst hti
+          simp only [Bool.false_eq_true, if_false, if_true] at hb
+          exact ih (q + 1) 0 _ (by omega) (by intro _; omega) hb.2 hg.2
+        · simp only [if_true] at hb
+          exact ih 0 0 _ (by omega) (by intro _; omega) hb hg.2
+
+theorem ps_idle_step (s : PSState) : psStep s ⟨true, false, false, false⟩ = s := by
+  cases s; simp [psStep]
+
+theorem ps_idle_run (n : Nat) (s : PSState) (rest : List PSIn) :
+    psRun s (List.replicate n ⟨true, false, false, false⟩ ++ rest) = psRun s rest ∧
+    psSeen s (List.replicate n ⟨true, false, false, false⟩ ++ rest) = psSeen s rest ∧
+    psSent (List.replicate n ⟨true, false, false, false⟩ ++ rest) = psSent rest := by
+  induction n with
+  | zero => simp
+  | succ n ih =>
+    simp only [List.replicate_succ, List.cons_append, psRun, psSeen, psSent, ps_idle_step]
+    simpa using ih
+
+theorem pburst_idle (R n : Nat) (rest : List PSIn) : ∀ q, q + n ≤ R → PBurst R (q + n) rest →
+    PBurst R q (List.replicate n ⟨true, false, false, false⟩ ++ rest) := by
+  induction n with
+  | zero => intro q _ h; simpa using h
+  | succ n ih =>
+    intro q hq h
+    simp only [List.replicate_succ, List.cons_append, PBurst, Bool.false_eq_true, if_false, if_true]
+    exact ⟨by omega, ih (q + 1) (by omega) (by rw [show q + 1 + n = q + (n + 1) by omega]; exact h)⟩
+
+theorem pgap_idle (g n : Nat) (rest : List PSIn) : ∀ c, PGap g (c + n) rest →
+    PGap g c (List.replicate n ⟨true, false, false, false⟩ ++ rest) := by
+  induction n with
+  | zero => intro c h; simpa using h
+  | succ n ih =>
+    intro c h
+    simp only [List.replicate_succ, List.cons_append, PGap, Bool.and_false, Bool.false_eq_true, if_false, if_true]
+    exact ih (c + 1) (by rw [show c + 1 + n = c + (n + 1) by omega]; exact h)
+
+def decPBurst (R : Nat) : (q : Nat) → (xs : List PSIn) → Decidable (PBurst R q xs)
+  | _, [] => isTrue trivial
+  | q, x :: xs =>
+    have := decPBurst R 0 xs
+    have := decPBurst R (q + 1) xs
+    have := decPBurst R q xs
+    show Decidable (if x.tO then PBurst R 0 xs else if x.ti then q < R ∧ PBurst R (q + 1) xs else PBurst R q xs)
+      from inferInstance
+
+instance (R q : Nat) (xs : List PSIn) : Decidable (PBurst R q xs) := decPBurst R q xs
+
+def decPGap (n : Nat) : (c : Nat) → (xs : List PSIn) → Decidable (PGap n c xs)
+  | _, [] => isTrue trivial
+  | c, x :: xs =>
+    have := decPGap n 0 xs
+    have := decPGap n (if x.ti then c + 1 else c) xs
+    show Decidable (if x.ti && x.i then n ≤ c ∧ PGap n 0 xs else PGap n (if x.ti then c + 1 else c) xs)
+      from inferInstance
+
+instance (n c : Nat) (xs : List PSIn) : Decidable (PGap n c xs) := decPGap n c xs
+
+/-- The tight schedule: drift bound `R` respected, the two pulses `R` pulse-free i-edges apart (one fewer than
+    `pspaced_of_gap` asks for) — and both pulses are lost. -/
+theorem ps_tight (R : Nat) :
+    PBurst R 0 (psTight R) ∧ PGap R R (psTight R) ∧ psSent (psTight R) = 2 ∧
+    psSeen psInit (psTight R) = 0 ∧ psFlight (psRun psInit (psTight R)) = 0 := by
+  unfold psTight
+  refine ⟨?_, ?_, ?_, ?_, ?_⟩
+  · simp only [List.cons_append, List.nil_append, PBurst, if_true]
+    exact pburst_idle R R _ 0 (by omega) (by simp [PBurst])
+  · simp only [List.cons_append, List.nil_append, PGap, Bool.and_self, if_true]
+    exact ⟨le_refl _, pgap_idle R R _ 0 (by simp [PGap])⟩
+  · simp only [List.cons_append, List.nil_append, psSent]
+    rw [(ps_idle_run R psInit _).2.2]
+    simp [psSent]
+  · simp only [List.cons_append, List.nil_append, psSeen]
+    rw [(ps_idle_run R _ _).2.1]
+    decide
+  · simp only [List.cons_append, List.nil_append, psRun]
+    rw [(ps_idle_run R _ _).1]
+    decide
+
 end Litex.Cdc
